@@ -56,7 +56,10 @@ MAXCH_TAGS = ("wav.pcm16", "aiff.pcm16", "au.pcm16", "w64.pcm16", "mat4.pcm16")
 
 # configurations measured to finish on the unchanged tree; the rest stay in the thorough tier until tuned
 MONO_ONLY = ("svx", "htk")
-HEAVY = ("caf", "nist", "paf", "ircam", "mat5", "pvf", "wavex", "rf64")   # large or text headers: > 200 s per query, thorough tier only
+HEAVY = ("ircam", "wavex", "rf64")   # 400..520 s per query (measured): thorough tier only, reduced N/channel grid
+# measured NOT to finish (no verdict after 1500 s / 24 GB: CAF 4 KiB pad, NIST and PVF text headers + sscanf, PAF, MAT5): kept in the
+# grid for the record but in no registered tier - these containers' round trips are outside the claim (DESIGN B.2)
+DROPPED = ("caf", "nist", "paf", "mat5", "pvf")
 
 
 def rt_harnesses(update_now=False, only=None):
@@ -78,6 +81,8 @@ def rt_harnesses(update_now=False, only=None):
                     continue
                 if "probe_vocupd" in tag and not update_now:
                     continue
+                if tag.split(".")[0] in HEAVY and not ((ch == 1 and nfix in (1, 1000)) or (ch == 2 and nfix == 1)):
+                    continue
                 # WAV-family 'fmt ' parsers keep their fields in a union: a symbolic rate makes the encoding field
                 # non-constant for the symbolic executor -> rate on the grid there, symbolic everywhere else
                 srs = [None]
@@ -94,9 +99,11 @@ def rt_harnesses(update_now=False, only=None):
                     d.update(extra)
                     if sr is not None:
                         d["SR_FIXED"] = sr
+                    if cfile in ("wav.c", "w64.c", "rf64.c"):
+                        d["STUB_APPEND_SNPRINTF"] = 1      # WAVEX channel-mask log text (env/log_stub.c)
                     name = "rt%s.%s.ch%d.n%d%s" % (".upd" if update_now else "", tag, ch, nfix, "" if sr is None else ".sr%d" % sr)
                     out.append(H(name, "C04/container_rt.c", link=[u for u in ALL_UNITS if u + ".c" != cfile],
-                                 stubs=["psf_log_printf", "psf_memset"], defines=d, unwind=12,
+                                 stubs=["psf_log_printf", "psf_memset"] + (["append_snprintf"] if cfile in ("wav.c", "w64.c", "rf64.c") else []), defines=d, unwind=12,
                                  unwindset=["psf_fread.0:%d" % (cap + 1), "psf_fwrite.0:%d" % (cap + 1), "psf_memset.0:65", "strlen.0:70",
                                             "strcmp.0:70", "snprintf.0:41", "snprintf.1:41", "psf_binheader_writef.0:%d" % (cap + 2),
                                             "psf_binheader_writef.1:40", "psf_binheader_readf.1:40", "psf_binheader_readf.0:20",
@@ -104,7 +111,7 @@ def rt_harnesses(update_now=False, only=None):
                                  checks="mem", fsa=cap + 80,
                                  include_env=("log_stub", "memfile", "memset_model", "snprintf_model", "libm_model"),
                                  timeout=1500 if tag.split(".")[0] in HEAVY else 240,
-                                 tiers=("thorough",) if (tag.split(".")[0] in HEAVY or not ((ch == 1 and nfix in (0, 1, 1000)) or (ch in (2, 1024) and nfix == 1))
+                                 tiers=() if tag.split(".")[0] in DROPPED else ("thorough",) if (tag.split(".")[0] in HEAVY or not ((ch == 1 and nfix in (0, 1, 1000)) or (ch in (2, 1024) and nfix == 1))
                                                          or (sr not in (None, 44100) and tag != "wav.pcm16")) else ("quick", "thorough"),
                                  kf=["aiffrate", "vocupd"], probe_for=("aiffrate" if "probe_aiffrate" in tag else "vocupd" if "probe_vocupd" in tag else None),
                                  functions=[openfn, cfile + " header writer/reader/close", "psf_binheader_writef", "psf_binheader_readf", "codec init"],
